@@ -3,7 +3,7 @@
    Props/C08.v for its equivalence with "end = transaction id of the next version / NULL for the
    newest": C08_validity_strategy is proved from exactly this definition). *)
 From Continuum Require Import Model.Base Model.VTable Model.Backfill Model.Core
-     Proofs.BaseP Proofs.VTableP Proofs.CoreP Proofs.ChainP Proofs.CoreChainP.
+     Proofs.BaseP Proofs.VTableP Proofs.CoreP Proofs.ChainP Proofs.CoreChainP Proofs.HierP.
 
 (* table level: writing (inserting or re-writing) the row of entity k at a transaction id T that is
    at least every id in the table, then closing its predecessor, yields the chain for entity k ... *)
@@ -28,11 +28,83 @@ Qed.
    creation) every version table satisfies its primary key and every validity-strategy table the
    chain; each table of a hierarchy is a separate table id and is covered separately *)
 Theorem C03_reachable_chain : forall g evs,
-  cfg_consistent g -> flat_hier g ->
+  cfg_consistent g -> hier_consistent g ->
   pk_unique (d_vt (s_db (run g evs))) /\
   (forall r, In r (d_vt (s_db (run g evs))) -> tab_valid g (hd 0 (vkey r)) = true ->
              vend r = min_above (d_vt (s_db (run g evs))) (vkey r) (vtx r)).
 Proof. exact reachable_tables_ok. Qed.
+
+(* joined-table hierarchies.  The base table of a hierarchy is a validity table like any other and is covered by
+   C03_reachable_chain (hier_consistent: the child tables are not validity tables of their own).  A row of a CHILD
+   table has to be closed by the next version of its key in the base table, whatever class that version has
+   (want), and be open while there is none.  The hierarchy pass - the model of the repaired
+   update_version_validity, applied after every flush (C03_machine_applies_the_pass) - establishes exactly that,
+   for any table in which every version of a subclass entity has its base-table row (paired) and every child row
+   is right already or stale in the one way a flush of transaction T can make it stale; it changes nothing else
+   (C03_hierarchy_pass_frame).  The hypotheses are evaluated on the model state at every recorded flush of a
+   hierarchy (Checks/Corechk.v hier_hyps); that they hold in every reachable state is NOT proved (it would need
+   the lock-step of the per-table parts of one object through track / process_op): for joined hierarchies the
+   machine-level chain is decided by this theorem + the monitored hypotheses + the correspondence. *)
+Theorem C03_hierarchy_pass_closes_superseded : forall g T vt,
+  one_base g -> paired g vt -> (forall r, In r vt -> vkey r <> []) ->
+  (forall cc x, In cc (g_classes g) -> In x vt -> child_of cc x ->
+     vend x = want vt cc x \/ want vt cc x = Some T) ->
+  forall cc x', In cc (g_classes g) -> In x' (hier_rows g T vt) -> child_of cc x' ->
+    vend x' = min_above (hier_rows g T vt) (k_tab cc :: tl (vkey x')) (vtx x').
+Proof. exact hier_pass_closes_superseded. Qed.
+
+Theorem C03_hierarchy_pass_frame : forall g T vt,
+  vids (hier_rows g T vt) = vids vt /\
+  (forall x', In x' (hier_rows g T vt) ->
+     In x' vt \/ (exists x cc, In x vt /\ In cc (g_classes g) /\ child_of cc x /\ x' = set_end x (Some T))).
+Proof. exact hier_pass_frame. Qed.
+
+Theorem C03_machine_applies_the_pass : forall g s objs ents assoc T,
+  no_hierb g = false -> u_cur (s_uow (flush g s objs ents assoc)) = Some T ->
+  d_vt (s_db (step g s (Flush objs ents assoc))) = hier_rows g T (d_vt (s_db (flush g s objs ents assoc))).
+Proof. intros g s objs ents assoc T H E. cbn [step]. apply hier_pass_is_hier_rows; assumption. Qed.
+
+Theorem C03_hierarchy_hypotheses_decidable : forall g T vt,
+  one_baseb g = true -> pairedb g vt = true -> keys_nonemptyb vt = true -> staleb g T vt = true ->
+  hier_chainb g (hier_rows g T vt) = true.
+Proof. exact hier_pass_closes_superseded_b. Qed.
+
+(* non-vacuity for hierarchies: Item <- Book (joined, table 1) and Cd (single table); key 1 is a Book (transaction
+   1), deleted (2), comes back as a plain Item (3), is deleted (4) and comes back as a Book (5).  The book rows of
+   transactions 1 and 2 are closed by 2 and 3 - the latter by the ITEM version of transaction 3 *)
+Definition C03_hcfg : cfg :=
+  mkcfg true false false false false
+    [ mkcls7 true true 0 [mkcol true false true; mkcol false false true; mkcol false false true] [] [1];
+      mkcls true false 1 [mkcol true false true; mkcol false false false; mkcol false false false; mkcol false false true] [];
+      mkcls7 true true 0 [mkcol true false true; mkcol false false true; mkcol false false true; mkcol false false true] [] [1];
+      mkcls7 true true 0 [mkcol true false true; mkcol false false true; mkcol false false true; mkcol false false false] [] [1] ].
+Definition bk (kind : Z) (new del : bool) (a p : Z) : ev :=
+  let ch := if del then [false;false;false;false] else [true;true;true;true] in
+  let e c := mkev c kind [Some 1; Some a; Some 7; Some p] ch [] (if del then [] else [0;1;2;3]%nat) del new ch in
+  Flush [mkobj 1 ch [] new del; mkobj 3 ch [] new del] [e 1%nat; e 3%nat] [].
+Definition it (kind : Z) (new del : bool) (a : Z) : ev :=
+  let ch := if del then [false;false;false] else [true;true;true] in
+  Flush [mkobj 0 ch [] new del] [mkev 0 kind [Some 1; Some a; Some 8] ch [] (if del then [] else [0;1;2]%nat) del new ch] [].
+Definition C03_htrace : list ev :=
+  [ bk 0 true false 1 1; Commit; bk 2 false true 1 1; Commit; it 0 true false 2; Commit; it 2 false true 2; Commit;
+    bk 0 true false 3 3; Commit ].
+Example C03_hierarchy_example :
+  cfg_consistent C03_hcfg /\ hier_consistent C03_hcfg /\ one_base C03_hcfg /\
+  map (fun r => (vkey r, vtx r, vend r, vop r)) (d_vt (s_db (run C03_hcfg C03_htrace))) =
+  [ ([1;1], 1, Some 2, 0); ([0;1], 1, Some 2, 0); ([1;1], 2, Some 3, 2); ([0;1], 2, Some 3, 2);
+    ([0;1], 3, Some 4, 0); ([0;1], 4, Some 5, 2); ([1;1], 5, None, 0); ([0;1], 5, None, 0) ] /\
+  (* the hypotheses of the pass theorem hold at the flush of transaction 3 (the Item version that supersedes a Book) *)
+  (let s := run C03_hcfg (firstn 4 C03_htrace) in
+   let mid := match nth 4 C03_htrace Commit with Flush o e a => flush C03_hcfg s o e a | _ => s end in
+   u_cur (s_uow mid) = Some 3 /\ pairedb C03_hcfg (d_vt (s_db mid)) = true /\
+   keys_nonemptyb (d_vt (s_db mid)) = true /\ staleb C03_hcfg 3 (d_vt (s_db mid)) = true /\
+   hier_chainb C03_hcfg (d_vt (s_db mid)) = false /\ hier_chainb C03_hcfg (hier_rows C03_hcfg 3 (d_vt (s_db mid))) = true).
+Proof.
+  split; [apply cfg_consistentb_spec; vm_compute; reflexivity|].
+  split; [apply hier_consistentb_spec; vm_compute; reflexivity|].
+  split; [apply one_baseb_spec; vm_compute; reflexivity|].
+  split; [vm_compute; reflexivity|]. repeat split; vm_compute; reflexivity.
+Qed.
 
 (* non-vacuity: three transactions on entity 1 (insert, update in two flushes, delete + re-insert
    in one transaction) interleaved with entity 2 *)
@@ -57,4 +129,9 @@ Proof. split; [apply cfg_consistentb_spec; vm_compute; reflexivity | vm_compute;
 Print Assumptions C03_write_preserves_chain.
 Print Assumptions C03_write_frames_others.
 Print Assumptions C03_reachable_chain.
+Print Assumptions C03_hierarchy_pass_closes_superseded.
+Print Assumptions C03_hierarchy_pass_frame.
+Print Assumptions C03_machine_applies_the_pass.
+Print Assumptions C03_hierarchy_hypotheses_decidable.
+Print Assumptions C03_hierarchy_example.
 Print Assumptions C03_example.
